@@ -302,6 +302,9 @@ def replay_file(pid, path):
             say(f"VIOLATION property={pid} replay={path}")
             return 1
         return 0
+    if line[1] == "grouping":
+        import emit_props
+        return emit_props.replay_grouping(pid, path)
     if line[1] == "tc":
         import tc_props
         bad = tc_props.replay_tc(pid, line)
